@@ -27,7 +27,8 @@ var (
 
 var Subjects = []wm.APeer{{Namespaces: all}, {Namespaces: teamA}, {PodsNS: all, PodsPod: appA}}
 var Peers = []wm.APeer{{Namespaces: all}, {Namespaces: teamB}, {PodsNS: teamA, PodsPod: appA}, {PodsNS: wm.ME("team", "NotIn", "a"), PodsPod: wm.ME("app", "Exists")},
-	{PodsNS: all, PodsPod: wm.ME("app", "NotIn", "a")}} // negative only: also matches a pod without labels
+	{PodsNS: all, PodsPod: wm.ME("app", "NotIn", "a")}, // negative only: also matches a pod without labels
+	{PodsNS: all, PodsPod: all}}                        // a pods peer with two empty selectors: every pod, and still no IP address
 var PortAlpha = []*[]wm.APort{nil,
 	ports(wm.APort{Kind: "num", Proto: "TCP", Num: 80}),
 	ports(wm.APort{Kind: "range", Proto: "TCP", Num: 80, End: 90}),
@@ -38,6 +39,8 @@ var PortAlpha = []*[]wm.APort{nil,
 	// entries without a protocol (default TCP) after entries of another protocol
 	ports(wm.APort{Kind: "num", Proto: "UDP", Num: 53}, wm.APort{Kind: "num", Num: 80}),
 	ports(wm.APort{Kind: "named", Name: "dns"}, wm.APort{Kind: "range", Num: 85, End: 100}),
+	// a range of exactly one port, next to a wider one on another protocol
+	ports(wm.APort{Kind: "range", Proto: "TCP", Num: 80, End: 80}, wm.APort{Kind: "range", Proto: "UDP", Num: 53, End: 54}),
 }
 var Actions = []string{"Allow", "Deny", "Pass"}
 
@@ -230,7 +233,7 @@ func Scopes(quick bool) []c01.Scope {
 	// S-single: one ANP, two rules (in both orders across the two directions) x subject x NP x BANP
 	stride := 1
 	if quick {
-		stride = 9
+		stride = 13 // coprime with the size of every dimension of the rule alphabet: rule 2 runs through all port shapes and peers
 	}
 	add("S-single", fw.Full, func(c *fw.Ctx) *wm.World {
 		s := fw.Pick(c, Subjects, "subject")
@@ -279,7 +282,7 @@ func Scopes(quick bool) []c01.Scope {
 		ra := c.Choose(len(rules), "rule A (ingress)")
 		rbStride := 3
 		if quick {
-			rbStride = 15
+			rbStride = 17
 		}
 		rb := rbStride * c.Choose((len(rules)+rbStride-1)/rbStride, "rule B (egress)")
 		swap := c.Choose(2, "priorities: A<B | B<A")
